@@ -232,6 +232,24 @@ func init() {
 				x.Spawn("C", func() { srch(x, ix, "C", nil) })
 			}, []uint32{1, 2}, vNoErr,
 			func(x *vSchedExec, ix *vConcIdx) { srch(x, ix, "main", nil) }))
+		// S9: Flush || Flush || Search with two soft-deleted documents
+		vScenarios = append(vScenarios, vIdxScenario(k, "S9-flush-flush-search", mk,
+			func(ix *vConcIdx) { ix.add(1, 0); ix.add(2, 1); ix.add(3, 2); ix.remove(2); ix.remove(3) },
+			func(x *vSchedExec, ix *vConcIdx) {
+				x.Spawn("A", func() { x.Op("A", "Flush", func() ([]uint32, error) { return nil, ix.flush() }) })
+				x.Spawn("B", func() { x.Op("B", "Flush", func() ([]uint32, error) { return nil, ix.flush() }) })
+				x.Spawn("C", func() { srch(x, ix, "C", nil) })
+			}, []uint32{1}, vNoErr,
+			func(x *vSchedExec, ix *vConcIdx) { srch(x, ix, "main", nil) }))
+		// S10: WriteTo || Flush || Add
+		vScenarios = append(vScenarios, vIdxScenario(k, "S10-write-flush-add", mk,
+			func(ix *vConcIdx) { ix.add(1, 0); ix.add(2, 1); ix.remove(2) },
+			func(x *vSchedExec, ix *vConcIdx) {
+				x.Spawn("A", func() { x.Op("A", "WriteTo", func() ([]uint32, error) { return nil, ix.write() }) })
+				x.Spawn("B", func() { x.Op("B", "Flush", func() ([]uint32, error) { return nil, ix.flush() }) })
+				x.Spawn("C", func() { x.Op("C", "Add(3)", func() ([]uint32, error) { return nil, ix.add(3, 2) }) })
+			}, []uint32{1}, vNoErr,
+			func(x *vSchedExec, ix *vConcIdx) { srch(x, ix, "main", nil) }))
 		// S5: two restricted searches (pooled filters / heaps) + an add
 		if k != "metadata" && k != "hybrid" {
 			vScenarios = append(vScenarios, &vScenario{Prop: "C11", Name: k + "/S5-restricted-searches",
@@ -480,6 +498,44 @@ func vInitStoreScenarios() {
 			}
 		},
 		Judge: func(x *vSchedExec) [][3]string { return vStoreJudge(x, nil, vNoErr) }}, "C11", "C08")
+	// T6: explicit Flush || Add, then Search
+	both(&vScenario{Name: "store/T6-flush-add",
+		Body: func(x *vSchedExec) {
+			st, err := vStoreOpen(x, vStoreCfg{Mem: 1, Thr: 1, Comp: 5, Tmpl: "v", Vec: "flat"})
+			if err != nil {
+				panic(err)
+			}
+			vStoreAdd(x, st, "main", 1, 0)
+			x.Spawn("A", func() { x.Op("A", "Flush", func() ([]uint32, error) { return nil, st.Flush() }) })
+			x.Spawn("B", func() { vStoreAdd(x, st, "B", 2, 1); vStoreAdd(x, st, "B", 3, 2) })
+			x.Join()
+			vStoreSearchOp(x, st, "main")
+			if x.free {
+				st.Close()
+			}
+		},
+		Judge: func(x *vSchedExec) [][3]string { return vStoreJudge(x, nil, vNoErr) }}, "C11", "C08")
+	// T7: Search || Close
+	both(&vScenario{Name: "store/T7-search-close",
+		Body: func(x *vSchedExec) {
+			st, err := vStoreOpen(x, vStoreCfg{Mem: 0, Thr: 1, Comp: 5, Tmpl: "v", Vec: "flat"})
+			if err != nil {
+				panic(err)
+			}
+			vStoreAdd(x, st, "main", 1, 0)
+			vStoreAdd(x, st, "main", 2, 1)
+			st.Flush()
+			x.Spawn("A", func() { vStoreSearchOp(x, st, "A") })
+			x.Spawn("B", func() { x.Op("B", "Close", func() ([]uint32, error) { return nil, st.Close() }) })
+			x.Join()
+		},
+		Judge: func(x *vSchedExec) [][3]string {
+			out := vStoreJudge(x, nil, vClosedMayFail)
+			if x.fs.Exists(vStoreDir + "/LOCK") {
+				out = append(out, [3]string{"lock-left-after-close", "", "LOCK present after Close returned"})
+			}
+			return out
+		}}, "C11", "C17")
 	// W1 (C08): [Add; Evict; Search] || background flush, one segment already on disk
 	both(&vScenario{Name: "store/W1-add-evict-search-bgflush",
 		Body: func(x *vSchedExec) {
